@@ -632,6 +632,17 @@ def _div(a, b):
     """a / b.  With ctx.div_as_mul set, a quotient by a non-constant term is a fresh q with b != 0 -> q*b == a
     (no division terms reach nlsat, which handles the multiplicative form much better)."""
     c = Ctx.cur
+    if c is not None and getattr(c, "div_as_inv", False) and not z3.is_rational_value(z3.simplify(b)):
+        # a / b = a * inv_b with ONE fresh inv_b per distinct denominator (b != 0 -> b * inv_b == 1): sums of quotients
+        # over a common denominator then factor, which nlsat cannot see through separate quotient variables
+        cache = c.__dict__.setdefault("_inv_cache", {})
+        k = b.get_id()
+        if k not in cache:
+            iv = c.new_real("inv")
+            c.pc.append(z3.Implies(b != 0, iv * b == 1))
+            c.defs[str(iv)] = ("expr", 1 / b)
+            cache[k] = (iv, b)
+        return a * cache[k][0]
     if c is not None and getattr(c, "div_as_mul", False) and not z3.is_rational_value(z3.simplify(b)):
         cache = c.__dict__.setdefault("_div_cache", {})
         k = (a.get_id(), b.get_id())
